@@ -18,11 +18,11 @@ let parse_ops (s : string) (total : int) (implicit_finish : bool) : Model.wop li
   (* the harness clamps a write to the data that is left *)
   let left = ref total in
   let ops = List.map (fun t -> match t with
-    | "f" -> Model.OpFlush
-    | "F" -> Model.OpFinish
+    | "f" -> Model.WoFlush
+    | "F" -> Model.WoFinish
     | n -> let n = int_of_string n in let n = if total < 0 then n else min n !left in
-           if total >= 0 then left := !left - n; Model.OpWrite (z n)) (items s) in
-  if implicit_finish then ops @ [Model.OpFinish] else ops
+           if total >= 0 then left := !left - n; Model.WoWrite (z n)) (items s) in
+  if implicit_finish then ops @ [Model.WoFinish] else ops
 
 let parse_decisions (s : string) : Model.ditem list =
   List.map (fun it ->
@@ -115,15 +115,15 @@ let install register =
       two_runs (run opsa dsa) (run opsb dsb)
     | _ -> "BADARGS");
   register "purem" (function _ -> "OK SAME");
-  (* write() returns the length of its slice (lzma1_run_exact) *)
-  register "huge1" (function _ :: n :: _ -> "OK " ^ n | _ -> "BADARGS");
+  (* no panic for any slice length (lzma1_run_exact); the run ends with the sink's error (kind Other) *)
+  register "huge1" (function _ -> "ERR 6");
   register "lzexp" (function o :: expected :: _seed :: ops :: ds :: _ ->
       let (dict, nice, normal, bt4) = parse_opts o in
       let expected = if expected = "none" then None else Some (zs expected) in
       (match Model.l1_replay normal bt4 dict nice None expected (parse_ops ops (-1) false) (parse_decisions ds) with
        | Model.Ok ((evs, res), left) ->
          let finished = List.exists (fun e -> e = Model.EvEnd) evs in
-         let rs = List.map (function Model.RWrote n -> "W" ^ sz n | Model.RErr c -> "E" ^ sz c | Model.RDone -> "D") res in
+         let rs = List.map (function Model.RWrote n -> "W" ^ sz n | Model.RRej c -> "E" ^ sz c | Model.RDone -> "D") res in
          let hdr = if finished then hex (Model.le_bytes (z 8) (match expected with Some e -> e | None -> zs "18446744073709551615")) else "-" in
          let acc = List.fold_left (fun s e -> match e with Model.EvFill (_, u) -> Big_int_Z.add_big_int s u | _ -> s) (z 0) evs in
          let sym = List.fold_left (fun s e -> match e with Model.EvSym (l, _) -> Big_int_Z.add_big_int s l | _ -> s) (z 0) evs in
